@@ -6,7 +6,9 @@
 (*     mr (module validate()), bm (best_match(e1): [k |-> "none"|"err", e])*)
 (*     mr2 (module validate() again)                                       *)
 (*  "invalid-schema": cs (what check_schema raised), mf (first error of the*)
-(*     metaschema validation), mr, mr2, spy (number of instance accesses)  *)
+(*     metaschema validation), mr, mr2, spy (number of instance accesses), *)
+(*     csv, mfv, mrv: the values (instance, keyword value, schema; tagged  *)
+(*     JSON or "unset") carried by cs, mf, mr                              *)
 (***************************************************************************)
 EXTENDS EntryPoints, TLC
 
@@ -26,6 +28,7 @@ ClausesOf(r) ==
   ELSE (IF r.cs.k # "schema" THEN {"~c04:not_invalid"}
         ELSE (IF r.mr.k = "schema" /\ EqErr(r.mr.e, r.cs.e) THEN {} ELSE {"schemaerror_first"})
              \cup (IF r.mf.k = "err" /\ EqErr(r.mf.e, r.cs.e) THEN {} ELSE {"schemaerror_fields"})
+             \cup (IF r.csv = r.mfv /\ r.mrv = r.mfv THEN {} ELSE {"schemaerror_values"})
              \cup (IF r.spy = 0 THEN {} ELSE {"instance_touched_before_schemaerror"})
              \cup (IF SameRaise(r.mr, r.mr2) THEN {} ELSE {"repeat_module_validate"}))
 
